@@ -199,16 +199,18 @@ def check(ast, inputs, flag):
     r = harness.exec_py(code, stack, ctx, budget=budget, wall=30)
     kinds = _kinds(ast)
     if r.exc is not None:
-        if isinstance(r.exc, harness.Inconclusive):
-            return ("discard", "watchdog")
+        if isinstance(r.exc, (harness.Inconclusive, RecursionError, MemoryError)):
+            return ("discard", "watchdog" if isinstance(r.exc, harness.Inconclusive) else "python-resource-limit")
         what = "did not finish within the step budget" if isinstance(r.exc, harness.FuelExhausted) else f"raised {type(r.exc).__name__}: {r.exc}"
         return (f"C01:stack:{'fuel' if isinstance(r.exc, harness.FuelExhausted) else 'raises:' + type(r.exc).__name__}:{kinds}",
                 f"{desc}: the reference finishes with stack {harness.jsonable(want_stack)!r} but the transpiled program {what}")
     try:
         with harness.watchdog(20), harness.fuel(budget):
             got_stack = [norm(x, cap=2000) for x in stack]
-    except (harness.FuelExhausted, harness.Inconclusive):
-        return (f"C01:stack:fuel-while-forcing:{kinds}", f"{desc}: forcing the final stack did not finish within the step budget")
+    except (harness.FuelExhausted, harness.Inconclusive, RecursionError):
+        # nested lazy results can be exponentially expensive to force although the eager reference is quick:
+        # a resource limit, not a semantic difference (an endless list shows up as a value difference instead)
+        return ("discard", "forcing-the-final-stack-exceeded-the-budget")
     except Exception as e:  # noqa: BLE001
         return (f"C01:stack:raises-while-forcing:{type(e).__name__}:{kinds}", f"{desc}: forcing the final stack raised {e!r}; the reference gives {harness.jsonable(want_stack)!r}")
     if got_stack != want_stack:
@@ -216,8 +218,8 @@ def check(ast, inputs, flag):
     # channel 2: printed text through main.execute_vyxal
     out, exc, _ = harness.run_main(text, flag, [repr(x) for x in inputs], budget=budget * 2, wall=30)
     if exc is not None:
-        if isinstance(exc, harness.Inconclusive):
-            return ("discard", "watchdog")
+        if isinstance(exc, (harness.Inconclusive, RecursionError, MemoryError)):
+            return ("discard", "watchdog" if isinstance(exc, harness.Inconclusive) else "python-resource-limit")
         return (f"C01:output:raises:{type(exc).__name__}:{kinds}", f"{desc}: execute_vyxal raised {type(exc).__name__}: {exc}; expected output {want_text!r}")
     if out != want_text:
         return (f"C01:output:text:{kinds}", f"{desc}: printed {out!r}, the reference semantics prints {want_text!r}")
